@@ -12,6 +12,7 @@
       deadline (RefreshAfterReloadFailure, in place), and never the value or the expiration deadline.
 -/
 import OtterVerif.Proofs.TableRefine
+import OtterVerif.Proofs.TableTraceFull
 
 namespace OtterVerif.Props.C10Refine
 open OtterVerif OtterVerif.Impl.Table OtterVerif.Proofs.TableRefine
@@ -51,5 +52,23 @@ theorem c11_failed_load_touches_only_ref (cfg : TCfg) (t : Tbl) (k : Nat) (corre
       · exact ⟨rfl, Or.inr ⟨x, _, rfl, rfl⟩⟩
       · exact ⟨rfl, Or.inl rfl⟩
     · exact ⟨rfl, Or.inl rfl⟩
+
+/-- **every history, with loads**: any sequence of Set / SetIfAbsent / Invalidate / GetIfPresent / Compute / clock advances,
+    registrations of loads (single flight), completions of loads with any outcome (value, error, not found, panic; plain load or
+    refresh; requested or volunteered key), SetExpiresAfter and SetRefreshableAfter, run on the transcription of the code from a
+    state related to a spec state, returns at every step the spec's result and atomic deletion events and stays related (same
+    map, same clock, same in-flight table).  In particular a completion installs its value only if no write, invalidation or
+    Compute of the key came after the registration (C09), whatever else happened in between -/
+theorem c10_every_history_with_loads (c : Cfg) (hk1 : KindOk c.expiry) (hk2 : KindOk c.refresh) (hr : ReadOk c)
+    (ops : List Proofs.TableTraceFull.FOp) (is : Proofs.TableTraceFull.FState) (ss : Spec.State)
+    (R : Proofs.TableTraceFull.FR is ss) (hclk : Proofs.TableTraceFull.FClockOk is.now ops) :
+    (Proofs.TableTraceFull.firun c is ops).2 = (Proofs.TableTraceFull.fsrun c ss ops).2 ∧
+    Proofs.TableTraceFull.FR (Proofs.TableTraceFull.firun c is ops).1 (Proofs.TableTraceFull.fsrun c ss ops).1 :=
+  Proofs.TableTraceFull.full_history_sim c hk1 hk2 hr ops is ss R hclk
+
+/-- the empty cache is related to the empty spec state -/
+theorem c10_empty_related (now0 : Int) :
+    Proofs.TableTraceFull.FR { now := now0, t := [], inflight := [] } { now := now0 } :=
+  ⟨fun _ => rfl, rfl, rfl, by intro k o h; cases h⟩
 
 end OtterVerif.Props.C10Refine
